@@ -8,7 +8,7 @@ import formmodel
 from props.c11 import random_corr
 
 PID = 'C10'
-MODULES = ['FFVerif.Proofs.C10', 'FFVerif.Proofs.C10Loop', 'FFVerif.Proofs.C10Newton', 'FFVerif.Proofs.C10Conv', 'FFVerif.Proofs.C10NumGrad', 'FFVerif.Proofs.C11Chol', 'FFVerif.Proofs.VecGen']
+MODULES = ['FFVerif.Proofs.C10', 'FFVerif.Proofs.C10Loop', 'FFVerif.Proofs.C10Newton', 'FFVerif.Proofs.C10Conv', 'FFVerif.Proofs.C10ScaleFosm', 'FFVerif.Proofs.C10NumGrad', 'FFVerif.Proofs.C11Chol', 'FFVerif.Proofs.VecGen']
 
 
 def fail(res, clause, case, out, sig=None):
